@@ -41,6 +41,7 @@ type target struct {
 	Locals []string // fragment mode: the assigned variables whose right-hand sides are translated
 	Lean   string   // Lean name of the definition (fragment mode: prefix)
 	Group  string   // output file Gen/Pure<Group>.lean (one per property family, so that a change in one module cannot break another property's obligations)
+	Conds  bool     // fragment mode: the condition of every other `if` too (branching that is not a rejection)
 	Guards bool     // fragment mode: also the conditions of the `if … { return …, err }` statements, in order
 }
 
@@ -74,6 +75,34 @@ var targets = []target{
 		Locals: []string{"numerator", "denominator", "square", "mintLptAmt"}, Guards: true},
 	{Group: "Coinswap", Mod: "coinswap", Pkg: "keeper", Func: "Keeper.RemoveUnilateralLiquidity", Lean: "RemoveUnilateral",
 		Locals: []string{"feeNumerator", "feeDenominator", "targetTokenNumerator", "targetTokenDenominator", "targetTokenAmtAfterFee"}, Guards: true},
+	{Group: "Farm", Mod: "farm", Pkg: "keeper", Func: "Keeper.updatePool", Lean: "updatePool",
+		Locals: []string{"blockInterval", "rewardCollected", "newRewardPerShare", "rules_i_RewardPerShare", "rules_i_RemainingReward"}, Guards: true},
+	{Group: "Farm", Mod: "farm", Pkg: "types", Func: "FarmPool.CaclRewards", Lean: "CaclRewards",
+		Locals: []string{"pendingRewardTotal", "pendingReward", "locked", "debt"}, Guards: true},
+	{Group: "Htlc", Mod: "htlc", Pkg: "keeper", Func: "Keeper.IncrementCurrentAssetSupply", Lean: "IncCurrent",
+		Locals: []string{"supplyLimit", "timeBasedSupplyLimit", "supply_TimeLimitedCurrentSupply", "supply_CurrentSupply"}, Guards: true},
+	{Group: "Htlc", Mod: "htlc", Pkg: "keeper", Func: "Keeper.DecrementCurrentAssetSupply", Lean: "DecCurrent",
+		Locals: []string{"supply_CurrentSupply"}, Guards: true},
+	{Group: "Htlc", Mod: "htlc", Pkg: "keeper", Func: "Keeper.IncrementIncomingAssetSupply", Lean: "IncIncoming",
+		Locals: []string{"totalSupply", "supplyLimit", "timeLimitedTotalSupply", "timeBasedSupplyLimit", "supply_IncomingSupply"}, Guards: true},
+	{Group: "Htlc", Mod: "htlc", Pkg: "keeper", Func: "Keeper.DecrementIncomingAssetSupply", Lean: "DecIncoming",
+		Locals: []string{"supply_IncomingSupply"}, Guards: true},
+	{Group: "Htlc", Mod: "htlc", Pkg: "keeper", Func: "Keeper.IncrementOutgoingAssetSupply", Lean: "IncOutgoing",
+		Locals: []string{"supply_OutgoingSupply"}, Guards: true},
+	{Group: "Htlc", Mod: "htlc", Pkg: "keeper", Func: "Keeper.DecrementOutgoingAssetSupply", Lean: "DecOutgoing",
+		Locals: []string{"supply_OutgoingSupply"}, Guards: true},
+	{Group: "Htlc", Mod: "htlc", Pkg: "keeper", Func: "Keeper.UpdateTimeBasedSupplyLimits", Lean: "UpdateWindow",
+		Locals: []string{"newTimeElapsed", "supply_TimeElapsed"}, Guards: true, Conds: true},
+	{Group: "Service", Mod: "service", Pkg: "keeper", Func: "Keeper.AddEarnedFee", Lean: "AddEarnedFee",
+		Locals: []string{"taxAmount"}},
+	{Group: "Service", Mod: "service", Pkg: "keeper", Func: "Keeper.Slash", Lean: "Slash",
+		Locals: []string{"slashedAmt"}},
+	{Group: "TokenFee", Mod: "token", Pkg: "keeper", Func: "Keeper.GetTokenMintFee", Lean: "GetTokenMintFee",
+		Locals: []string{"mintFee"}},
+	{Group: "TokenFee", Mod: "token", Pkg: "keeper", Func: "feeHandler", Lean: "feeHandler",
+		Locals: []string{"communityTaxCoin"}},
+	{Group: "TokenFee", Mod: "token", Pkg: "keeper", Func: "calcFeeByBase", Lean: "calcFeeByBase",
+		Locals: []string{"actualFee"}},
 }
 
 // ---------------------------------------------------------------------------------------------
@@ -180,6 +209,8 @@ var methods = map[string]method{
 
 	"Coin.IsPositive": {"Coin_IsPositive", false, kBool}, "Coin.IsZero": {"Coin_IsZero", false, kBool},
 	"Coin.IsNegative": {"Coin_IsNegative", false, kBool}, "Coin.IsValid": {"Coin_IsValid", false, kBool},
+	"Coin.Add": {"Coin_Add", true, kCoin}, "Coin.Sub": {"Coin_Sub", true, kCoin},
+	"Coin.IsLT": {"Coin_IsLT", true, kBool}, "Coin.IsGTE": {"Coin_IsGTE", true, kBool}, "Coin.IsLTE": {"Coin_IsLTE", true, kBool},
 
 	"Coins.IsValid": {"Coins_IsValid", false, kBool}, "Coins.Validate": {"Coins_Validate", false, kErr},
 
@@ -211,6 +242,7 @@ type param struct {
 }
 
 type tr struct {
+	opaque  bool // fragment mode: a substrate-typed call the translator does not know (a store / bank / coins read) becomes a parameter
 	pkg     *packages.Package
 	params  []param
 	pseen   map[string]bool
@@ -257,6 +289,13 @@ func (t *tr) fieldPath(e ast.Expr) (string, bool) {
 		}
 	case *ast.ParenExpr:
 		return t.fieldPath(x.X)
+	case *ast.IndexExpr:
+		// rules[i]: an element of a slice of records, named by the index variable
+		if id, ok := x.Index.(*ast.Ident); ok {
+			if p, ok := t.fieldPath(x.X); ok {
+				return p + "_" + id.Name, true
+			}
+		}
 	}
 	return "", false
 }
@@ -351,21 +390,66 @@ func (t *tr) expr(e ast.Expr, out *[]string) (string, kind) {
 			case token.NEQ:
 				return "(" + a + " != " + b + ")", kBool
 			case token.LSS:
-				return "decide (" + a + " < " + b + ")", kBool
+				return "(decide (" + a + " < " + b + "))", kBool
 			case token.LEQ:
-				return "decide (" + a + " ≤ " + b + ")", kBool
+				return "(decide (" + a + " ≤ " + b + "))", kBool
 			case token.GTR:
-				return "decide (" + a + " > " + b + ")", kBool
+				return "(decide (" + a + " > " + b + "))", kBool
 			case token.GEQ:
-				return "decide (" + a + " ≥ " + b + ")", kBool
+				return "(decide (" + a + " ≥ " + b + "))", kBool
 			}
+		}
+		if ak == kI64 && bk == kI64 && (x.Op == token.ADD || x.Op == token.SUB) {
+			// int64 arithmetic wraps (two's complement); `I64_Add` / `I64_Sub` say so
+			return "(" + map[token.Token]string{token.ADD: "I64_Add", token.SUB: "I64_Sub"}[x.Op] + " " + a + " " + b + ")", kI64
 		}
 		t.fail(x, "binary %s on machine values (fixed-width arithmetic is not translated)", x.Op)
 	case *ast.CallExpr:
+		if t.opaque && k != kOther && k != kErr {
+			// try the call; if it is outside the library surface it is a read of the environment
+			var res string
+			var rk kind
+			ok := func() (ok bool) {
+				defer func() {
+					if r := recover(); r != nil {
+						if _, is := r.(unsupported); is {
+							ok = false
+							return
+						}
+						panic(r)
+					}
+				}()
+				var tmp []string
+				saveTmp, saveParams := t.tmp, len(t.params)
+				res, rk = t.call(x, &tmp)
+				_ = saveTmp
+				_ = saveParams
+				*out = append(*out, tmp...)
+				return true
+			}()
+			if ok {
+				return res, rk
+			}
+			name := "read_" + sanitize(types.ExprString(x))
+			return t.addParam(name, k, x), k
+		}
 		return t.call(x, out)
 	}
 	t.fail(e, "expression %T", e)
 	return "", kOther
+}
+
+func sanitize(s string) string {
+	var b strings.Builder
+	for _, c := range s {
+		switch {
+		case c >= 'a' && c <= 'z', c >= 'A' && c <= 'Z', c >= '0' && c <= '9':
+			b.WriteRune(c)
+		case c == '.' || c == '(' || c == ',' || c == '[':
+			b.WriteRune('_')
+		}
+	}
+	return strings.Trim(b.String(), "_")
 }
 
 func recvKey(k kind) string {
@@ -753,14 +837,23 @@ func translateLocals(p *packages.Package, fd *ast.FuncDecl, tg target) (defs []s
 			return true
 		}
 		for i, l := range as.Lhs {
-			id, ok := l.(*ast.Ident)
-			if !ok || !want[id.Name] {
+			lname := ""
+			if id, ok := l.(*ast.Ident); ok {
+				lname = id.Name
+			} else {
+				pt := &tr{pkg: p, pseen: map[string]bool{}, bound: map[string]kind{}}
+				if pth, ok := pt.fieldPath(l); ok {
+					lname = pth
+				}
+			}
+			if lname == "" || !want[lname] {
 				continue
 			}
+			id := struct{ Name string }{lname}
 			count[id.Name]++
 			name := fmt.Sprintf("%s_%s_%d", tg.Lean, id.Name, count[id.Name])
 			func() {
-				t := &tr{pkg: p, pseen: map[string]bool{}, bound: map[string]kind{}, knownGo: map[string]string{}}
+				t := &tr{pkg: p, opaque: true, pseen: map[string]bool{}, bound: map[string]kind{}, knownGo: map[string]string{}}
 				defer func() {
 					if r := recover(); r != nil {
 						if u, ok := r.(unsupported); ok {
@@ -784,24 +877,30 @@ func translateLocals(p *packages.Package, fd *ast.FuncDecl, tg target) (defs []s
 	})
 	if tg.Guards {
 		g := 0
-		for _, st := range fd.Body.List {
-			is, ok := st.(*ast.IfStmt)
-			if !ok || is.Init != nil || is.Else != nil || len(is.Body.List) == 0 {
+		var ifs []*ast.IfStmt
+		ast.Inspect(fd.Body, func(n ast.Node) bool {
+			if is, ok := n.(*ast.IfStmt); ok {
+				ifs = append(ifs, is)
+			}
+			return true
+		})
+		for _, is := range ifs {
+			if is.Init != nil || (is.Else != nil && !tg.Conds) || len(is.Body.List) == 0 {
 				continue
 			}
-			ret, ok := is.Body.List[len(is.Body.List)-1].(*ast.ReturnStmt)
-			if !ok || len(ret.Results) == 0 {
-				continue
+			isGuard := false
+			if ret, ok := is.Body.List[len(is.Body.List)-1].(*ast.ReturnStmt); ok && len(ret.Results) > 0 {
+				last := ret.Results[len(ret.Results)-1]
+				isGuard = kindOf(p.TypesInfo.TypeOf(last)) == kErr && types.ExprString(last) != "nil"
 			}
-			last := ret.Results[len(ret.Results)-1]
-			if kindOf(p.TypesInfo.TypeOf(last)) != kErr || types.ExprString(last) == "nil" {
+			if !isGuard && !tg.Conds {
 				continue
 			}
 			if c := types.ExprString(is.Cond); c == "err != nil" || (strings.HasPrefix(c, "!") && !strings.ContainsAny(c, "(. ")) {
 				continue // outcome of a lookup or of address parsing: not arithmetic
 			}
 			func() {
-				t := &tr{pkg: p, pseen: map[string]bool{}, bound: map[string]kind{}, knownGo: map[string]string{}}
+				t := &tr{pkg: p, opaque: true, pseen: map[string]bool{}, bound: map[string]kind{}, knownGo: map[string]string{}}
 				defer func() {
 					if r := recover(); r != nil {
 						if _, ok := r.(unsupported); ok {
@@ -814,12 +913,19 @@ func translateLocals(p *packages.Package, fd *ast.FuncDecl, tg target) (defs []s
 				v, _ := t.expr(is.Cond, &pre)
 				g++
 				name := fmt.Sprintf("%s_guard_%d", tg.Lean, g)
+				if !isGuard {
+					name = fmt.Sprintf("%s_cond_%d", tg.Lean, g)
+				}
 				var sb strings.Builder
 				for _, l := range pre {
 					sb.WriteString("  " + l + "\n")
 				}
 				sb.WriteString("  some " + v + "\n")
-				defs = append(defs, fmt.Sprintf("/-- rejects when true: `%s` -/\ndef %s%s : Option (Bool) := do\n%s", types.ExprString(is.Cond), name, sig(t.params), sb.String()))
+				doc := "rejects when true"
+				if !isGuard {
+					doc = "branch condition"
+				}
+				defs = append(defs, fmt.Sprintf("/-- "+doc+": `%s` -/\ndef %s%s : Option (Bool) := do\n%s", types.ExprString(is.Cond), name, sig(t.params), sb.String()))
 			}()
 		}
 	}
